@@ -96,7 +96,7 @@ variable {κ β : Type}
 theorem mem_akeys {m : List (κ × β)} {k : κ} : k ∈ akeys m ↔ ∃ v, (k, v) ∈ m := by
   simp [akeys]
 
-theorem mem_akeys_of_mem {m : List (κ × β)} {e : κ × β} (h : e ∈ m) : e.1 ∈ akeys m :=
+theorem rt_mem_akeys_of_mem {m : List (κ × β)} {e : κ × β} (h : e ∈ m) : e.1 ∈ akeys m :=
   mem_akeys.2 ⟨e.2, h⟩
 
 @[simp] theorem DictWF_nil : DictWF ([] : List (κ × β)) := by simp [DictWF]
@@ -120,7 +120,7 @@ theorem alookup_append (m n : List (κ × β)) (x : κ) :
     obtain ⟨k, v⟩ := e
     by_cases h : k = x <;> simp [h, ih]
 
-theorem alookup_eq_none_iff {m : List (κ × β)} {x : κ} : alookup m x = none ↔ x ∉ akeys m := by
+theorem rt_alookup_eq_none_iff {m : List (κ × β)} {x : κ} : alookup m x = none ↔ x ∉ akeys m := by
   induction m with
   | nil => simp
   | cons e t ih =>
@@ -129,8 +129,8 @@ theorem alookup_eq_none_iff {m : List (κ × β)} {x : κ} : alookup m x = none 
     · simp [h]
     · simp [h, ih, Ne.symm h]
 
-theorem alookup_isSome_iff {m : List (κ × β)} {x : κ} : (alookup m x).isSome ↔ x ∈ akeys m := by
-  have := alookup_eq_none_iff (m := m) (x := x)
+theorem rt_alookup_isSome_iff {m : List (κ × β)} {x : κ} : (alookup m x).isSome ↔ x ∈ akeys m := by
+  have := rt_alookup_eq_none_iff (m := m) (x := x)
   cases h : alookup m x <;> simp_all
 
 theorem mem_of_alookup {m : List (κ × β)} {k : κ} {v : β} (h : alookup m k = some v) : (k, v) ∈ m := by
@@ -180,7 +180,7 @@ theorem mem_iff_alookup {m : List (κ × β)} (hm : DictWF m) {k : κ} {v : β} 
         simp [h, Ne.symm h]
       · simp [h, h', ih]
 
-theorem akeys_upsert (m : List (κ × β)) (k : κ) (v : β) :
+theorem rt_akeys_upsert (m : List (κ × β)) (k : κ) (v : β) :
     akeys (upsert m k v) = sinsert (akeys m) k := by
   induction m with
   | nil => simp [upsert, sinsert]
@@ -195,13 +195,13 @@ theorem akeys_upsert (m : List (κ × β)) (k : κ) (v : β) :
       unfold sinsert
       by_cases hk : k ∈ akeys t <;> simp [hk, h2]
 
-theorem mem_akeys_upsert {m : List (κ × β)} {k : κ} {v : β} {x : κ} :
+theorem rt_mem_akeys_upsert {m : List (κ × β)} {k : κ} {v : β} {x : κ} :
     x ∈ akeys (upsert m k v) ↔ x ∈ akeys m ∨ x = k := by
-  rw [akeys_upsert, mem_sinsert]
+  rw [rt_akeys_upsert, mem_sinsert]
 
 theorem DictWF_upsert {m : List (κ × β)} (h : DictWF m) (k : κ) (v : β) : DictWF (upsert m k v) := by
   unfold DictWF
-  rw [akeys_upsert]
+  rw [rt_akeys_upsert]
   exact nodup_sinsert h
 
 theorem mem_upsert {m : List (κ × β)} {k : κ} {v : β} {e : κ × β} (h : e ∈ upsert m k v) :
@@ -235,7 +235,7 @@ theorem akeys_atouch (m : List (κ × β)) (k : κ) (d : β) :
     akeys (atouch m k d) = sinsert (akeys m) k := by
   unfold atouch sinsert
   cases h : alookup m k with
-  | none => simp [alookup_eq_none_iff.1 h]
+  | none => simp [rt_alookup_eq_none_iff.1 h]
   | some v => simp [mem_akeys_of_alookup h]
 
 theorem mem_akeys_atouch {m : List (κ × β)} {k : κ} {d : β} {x : κ} :
@@ -321,10 +321,10 @@ theorem get2_eq_some_iff {m : List (κ × List (κ' × β))} {k : κ} {k' : κ'}
   simp [get2]
 
 theorem akeys_set2 (m : List (κ × List (κ' × β))) (k : κ) (k' : κ') (v : β) :
-    akeys (set2 m k k' v) = sinsert (akeys m) k := akeys_upsert _ _ _
+    akeys (set2 m k k' v) = sinsert (akeys m) k := rt_akeys_upsert _ _ _
 
 theorem mem_akeys_set2 {m : List (κ × List (κ' × β))} {k : κ} {k' : κ'} {v : β} {x : κ} :
-    x ∈ akeys (set2 m k k' v) ↔ x ∈ akeys m ∨ x = k := mem_akeys_upsert
+    x ∈ akeys (set2 m k k' v) ↔ x ∈ akeys m ∨ x = k := rt_mem_akeys_upsert
 
 omit [DecidableEq κ'] in
 theorem DictWF_agetD {m : List (κ × List (κ' × β))} (h : ∀ e ∈ m, DictWF e.2) (k : κ) :
